@@ -565,8 +565,15 @@ func TestC32(t *testing.T) {
 								add("query/mismatch", fmt.Sprintf("issued name=%q payload=%x ltime=%d source=%q timeout=%v; delivered name=%q payload=%x ltime=%d source=%q deadline-in=%v",
 									qname, qpay, qm.LTime, A.name, params.Timeout, q.Name, q.Payload, q.LTime, q.SourceNode(), q.Deadline().Sub(at)), nil)
 							}
-							if err := q.Respond(resp); err != nil {
+							// the responder hands in a buffer of its own and re-uses it as soon as Respond has
+							// returned (Respond is synchronous: what it sends, directly or through relays, was
+							// encoded from the bytes it was given)
+							mine := append([]byte(nil), resp...)
+							if err := q.Respond(mine); err != nil {
 								add("query/respond", "Respond failed: "+err.Error(), nil)
+							}
+							for k := range mine {
+								mine[k] = '#'
 							}
 							synctest.Wait()
 						}
